@@ -257,7 +257,9 @@ def directed_cases():
             if lang == 'kotlin':
                 case([v_base, v_renamed], [0, 0, 1, 1], flags=[], what='kotlin without a package: no file header')
             if lang == 'swift' and mode == 'multi':
-                case([v_unit, v_base], [0, 0, 1, 0], seed=[['out/Codable.swift', 'codable_nonl']], what='Codable.swift pre-seeded with the contents minus the newline')
+                case([v_unit, v_base], [0, 0, 1, 0], seed=[['out/Codable.swift', 'codable_nonl']], what='Codable.swift pre-seeded with the contents minus the newline (stale: rewritten once)')
+                case([v_unit, v_base], [0, 0, 1, 0, 0], seed=[['out/Codable.swift', ['fresh', 0]]], what='Codable.swift pre-seeded with the contents and the newline (up to date: never touched)')
+                case([v_unit, v_base], [0, 0, 1, 0], seed=[['out/Codable.swift', 'junk']], what='Codable.swift pre-seeded with other bytes (rewritten once)')
     return out
 
 
